@@ -23,4 +23,13 @@ PROPS = {
              "params": {"quick": {"depth": 0, "width": 1}, "thorough": {"depth": 1, "width": 1}}, "wall": {"thorough": "40m"}},
         ],
     },
+    "C02": {
+        "technique": "bounded symbolic execution of operation histories over the real collection builtins and quasiquote/EVAL, exact slice aliasing/capacity (host append on 16-byte elements = []MalType), deep snapshot re-inspection after every step; SMT (z3) decides every path class",
+        "outside": "histories longer than the bound; _PACKAGES_ registration (Go-side loader action); atoms/futures (reference objects); lisp closures as update functions (a Go function value conj-ing onto its argument is used)",
+        "assumptions": ["append growth policy is the host runtime's for 16-byte elements (identical element size to types.MalType)"],
+        "runs": [
+            {"pkg": "./c02", "harness": "Harness_history", "setup": "Setup",
+             "params": {"quick": {"steps": 2, "ophi": 15}, "thorough": {"steps": 2}}, "wall": {"thorough": "40m"}},
+        ],
+    },
 }
